@@ -445,6 +445,12 @@ func (a *admin) intruder() {
 func (a *admin) intrude(ni *nodeInc, served bool) bool {
 	run := a.run
 	fsm := &recFSM{inc: &nodeInc{run: run, node: ni.node, dead: true}}
+	// New opens (and where it finds something to repair, rewrites) the storage of a directory
+	// that another instance is serving; only Serve takes the lock. What that does to the
+	// serving instance is interference from outside, like an injected storage error: its
+	// storage oracles are no longer demanded, the identity and exclusivity oracles are.
+	ni.diskErrs++
+	ni.node.tampered = true
 	r2, err := New(run.simOptions(), fsm, ni.dir)
 	if err != nil {
 		run.led.onIntruder(ni, served, "new", err)
